@@ -364,6 +364,136 @@ theorem crop_registration {h w : Nat} {mn mx : V2} {constrain : Bool} {p : Plan2
     unfold Plan2.landmark; rw [hT]
     ext <;> simp [transl2, Aff2.inv, Aff2.det, Aff2.apply] <;> ring
 
+/-- one axis: reading a window `[r, r+n)` of a longer axis at `x` is reading the long axis at `x + r` -/
+theorem axis1_shift (o : Interp) {n m : Nat} {f g : Int → Rat} {r : Int} {x : Rat} (hr : 0 ≤ r)
+    (hfit : r + (n : Int) ≤ (m : Int)) (hx : inR n x)
+    (hfg : ∀ i : Int, 0 ≤ i → i ≤ (n : Int) - 1 → f i = g (i + r)) :
+    axis1 o n f x = axis1 o m g (x + (r : Rat)) := by
+  have hx' : inR m (x + (r : Rat)) := by
+    obtain ⟨h0, h1⟩ := hx
+    have hr' : (0 : Rat) ≤ (r : Rat) := by exact_mod_cast hr
+    refine ⟨by linarith, ?_⟩
+    rw [top_eq] at h1 ⊢
+    have : ((r : Int) : Rat) + ((n : Int) : Rat) ≤ ((m : Int) : Rat) := by exact_mod_cast hfit
+    push_cast at this
+    linarith
+  unfold axis1
+  rw [clampR_of_inR hx, clampR_of_inR hx']
+  cases o with
+  | nearest =>
+    obtain ⟨a0, a1⟩ := round_in_range hx
+    obtain ⟨b0, b1⟩ := round_in_range hx'
+    have e : (x + (r : Rat) + 1 / 2).floor = (x + 1 / 2).floor + r := by
+      have : x + (r : Rat) + 1 / 2 = (x + 1 / 2) + (r : Rat) := by ring
+      rw [this, Rat.floor_add_intCast]
+    simp only [clampI_of_range a0 a1, clampI_of_range b0 b1]
+    rw [e, hfg _ a0 a1]
+  | linear =>
+    obtain ⟨h0, h1⟩ := hx
+    obtain ⟨h0', h1'⟩ := hx'
+    have hi0 : 0 ≤ x.floor := floor_nonneg_of h0
+    have hi1 : x.floor ≤ (n : Int) - 1 := floor_le_top h1
+    have e : (x + (r : Rat)).floor = x.floor + r := Rat.floor_add_intCast
+    have hk0 : 0 ≤ x.floor + r := by omega
+    have hk1 : x.floor + r ≤ (m : Int) - 1 := by omega
+    simp only [e, clampI_of_range hi0 hi1, clampI_of_range hk0 hk1]
+    have et : x + (r : Rat) - ((x.floor + r : Int) : Rat) = x - (x.floor : Rat) := by push_cast; ring
+    rw [et, hfg _ hi0 hi1]
+    by_cases ht : x - (x.floor : Rat) = 0
+    · rw [ht]; ring
+    · have hfl : (x.floor : Rat) ≤ x := Rat.floor_le x
+      have hlt : (x.floor : Rat) < x := lt_of_le_of_ne hfl (fun h => ht (by linarith))
+      have hi2 : x.floor + 1 ≤ (n : Int) - 1 := by
+        have : (x.floor : Rat) < top n := lt_of_lt_of_le hlt h1
+        unfold top at this
+        have : x.floor < (n : Int) - 1 := by exact_mod_cast this
+        omega
+      have hi2' : 0 ≤ x.floor + 1 := by omega
+      have hk2 : x.floor + r + 1 ≤ (m : Int) - 1 := by omega
+      have hk2' : 0 ≤ x.floor + r + 1 := by omega
+      simp only [clampI_of_range hi2' hi2, clampI_of_range hk2' hk2]
+      rw [hfg _ hi2' hi2]
+      have : x.floor + 1 + r = x.floor + r + 1 := by ring
+      rw [this]
+
+/-- sampling a crop at `p` (either order) is sampling the original at `p + (r, s)`: arbitrary content,
+arbitrary sub-pixel position -/
+theorem translation_warp_sampling (o o' : Interp) (m : Mode) (im : Img2) (h w : Nat) (r s : Int) (hr : 0 ≤ r) (hs : 0 ≤ s)
+    (hfh : r + (h : Int) ≤ (im.h : Int)) (hfw : s + (w : Int) ≤ (im.w : Int)) (p : V2)
+    (hp : inR h p.x ∧ inR w p.y) :
+    (warp2 o' m im h w (transl2 ⟨(r : Rat), (s : Rat)⟩)).core o p = im.core o ⟨p.x + (r : Rat), p.y + (s : Rat)⟩ := by
+  unfold Img2.core
+  show axis1 o h _ p.x = _
+  apply axis1_shift o hr hfh hp.1
+  intro i hi0 hi1
+  show axis1 o w _ p.y = _
+  apply axis1_shift o hs hfw hp.2
+  intro j hj0 hj1
+  exact translation_warp_exact o' m im h w r s i j (by omega) (by omega) (by omega) (by omega)
+theorem constrainPt_int' (n : Nat) (z : Int) :
+    ∃ r : Int, constrainPt n (z : Rat) = (r : Rat) ∧ 0 ≤ r ∧ r ≤ (n : Int) := by
+  unfold constrainPt
+  split
+  · exact ⟨0, by simp, le_refl _, by omega⟩
+  · rename_i h0
+    split
+    · exact ⟨(n : Int), by simp, by omega, le_refl _⟩
+    · rename_i h1
+      refine ⟨z, rfl, ?_, ?_⟩
+      · have : (0 : Rat) ≤ (z : Rat) := not_lt.mp h0
+        exact_mod_cast this
+      · have : (0 : Rat) ≤ (n : Rat) - (z : Rat) := not_lt.mp h1
+        have : (z : Rat) ≤ ((n : Int) : Rat) := by push_cast; linarith
+        exact_mod_cast this
+
+/-- the cropped region always lies inside the image (both bounds are constrained before the shape is taken) -/
+theorem crop_region_inside {h w : Nat} {mn mx : V2} {constrain : Bool} {p : Plan2}
+    (hp : cropPlan2 h w mn mx constrain = .ok p) :
+    ∃ r s : Int, 0 ≤ r ∧ 0 ≤ s ∧ p.T = transl2 ⟨(r : Rat), (s : Rat)⟩ ∧ p.order = some .nearest ∧
+      r + (p.h : Int) ≤ (h : Int) ∧ s + (p.w : Int) ≤ (w : Int) := by
+  unfold cropPlan2 at hp
+  simp only at hp
+  split at hp
+  · cases hp
+  · split at hp
+    · cases hp
+    · have := Except.ok_inj' hp
+      subst this
+      obtain ⟨r, hr, hr0, hr1⟩ := constrainPt_int' h mn.x.floor
+      obtain ⟨s, hs, hs0, hs1⟩ := constrainPt_int' w mn.y.floor
+      obtain ⟨R, hR, hR0, hR1⟩ := constrainPt_int' h mx.x.ceil
+      obtain ⟨S, hS, hS0, hS1⟩ := constrainPt_int' w mx.y.ceil
+      refine ⟨r, s, hr0, hs0, by rw [hr, hs], rfl, ?_, ?_⟩
+      · show r + (((constrainPt h (mx.x.ceil : Rat) - constrainPt h (mn.x.floor : Rat)).floor.toNat : Nat) : Int) ≤ _
+        rw [hr, hR]
+        have : ((R : Rat) - (r : Rat)).floor = R - r := by
+          have : (R : Rat) - (r : Rat) = ((R - r : Int) : Rat) := by push_cast; ring
+          rw [this, Rat.floor_intCast]
+        rw [this]; omega
+      · show s + (((constrainPt w (mx.y.ceil : Rat) - constrainPt w (mn.y.floor : Rat)).floor.toNat : Nat) : Int) ≤ _
+        rw [hs, hS]
+        have : ((S : Rat) - (s : Rat)).floor = S - s := by
+          have : (S : Rat) - (s : Rat) = ((S - s : Int) : Rat) := by push_cast; ring
+          rw [this, Rat.floor_intCast]
+        rw [this]; omega
+
+/-- **crop family: exact registration for arbitrary content, arbitrary (sub-pixel) landmarks, both orders.**
+Sampling the cropped image at the returned landmark is sampling the original at the original landmark. -/
+theorem crop_exact_registration (im : Img2) {mn mx : V2} {constrain : Bool} {p : Plan2}
+    (hp : cropPlan2 im.h im.w mn mx constrain = .ok p) (o o' : Interp) (m₂ : Mode) (l : V2)
+    (hl' : inR p.h (p.landmark l).x ∧ inR p.w (p.landmark l).y) :
+    (p.run o' im).sample o m₂ (p.landmark l) = im.core o l := by
+  obtain ⟨r, s, hr0, hs0, hT, ho, hfh, hfw⟩ := crop_region_inside hp
+  have hin : (p.run o' im).inside (p.landmark l) := hl'
+  rw [sample2_of_inside _ _ _ hin]
+  have hl : p.landmark l = ⟨l.x - (r : Rat), l.y - (s : Rat)⟩ := by
+    unfold Plan2.landmark; rw [hT]
+    ext <;> simp [transl2, Aff2.inv, Aff2.det, Aff2.apply] <;> ring
+  unfold Plan2.run
+  rw [hT]
+  rw [translation_warp_sampling o _ p.mode im p.h p.w r s hr0 hs0 hfh hfw (p.landmark l) hl', hl]
+  congr 1
+  ext <;> simp
 theorem about_plan_invertible {h w : Nat} {A : Aff2} {retain : Bool} {m : Mode} {r : Rounding} {p : Plan2}
     (hp : aboutPlan2 h w A retain m r = .ok p) : p.T.det ≠ 0 := by
   unfold aboutPlan2 at hp
@@ -658,6 +788,12 @@ example : (cropPlan2 6 7 ⟨3/2, 11/5⟩ ⟨51/10, 6⟩ true).toOption.map (fun 
 example : (cropPlan2 6 7 ⟨-2, 1⟩ ⟨9, 5⟩ true).toOption.map (fun p => (p.h, p.w, p.T))
     = some (6, 4, transl2 ⟨0, 1⟩) := by decide +kernel
 example : (cropPlan2 6 7 ⟨-2, -1⟩ ⟨9, 5⟩ false).toOption.isNone = true := by decide +kernel
+example : (cropPlan2 6 7 ⟨1, 1⟩ ⟨9, 5⟩ false).toOption.isNone = true := by decide +kernel   -- one side out: refused
+-- crop: arbitrary content, sub-pixel landmark, bilinear read-back: exact (crop_exact_registration)
+example : (cropPlan2 5 5 ⟨1/2, 3/2⟩ ⟨4, 9/2⟩ true).toOption.map
+      (fun p => (p.h, p.w, p.landmark ⟨3/2, 9/4⟩, (p.run .linear exHash).sample .linear .nearest (p.landmark ⟨3/2, 9/4⟩)))
+    = some (4, 4, ⟨3/2, 5/4⟩, exHash.core .linear ⟨3/2, 9/4⟩) := by decide +kernel
+example : exHash.core .linear ⟨3/2, 9/4⟩ = 9 / 4 := by decide +kernel
 -- mirror, zoom, rotation by a quarter turn (the frame is re-originated: 6×7 becomes 7×6)
 example : (mirrorPlan2 6 7 1).toOption.map (fun p => (p.T, p.landmark ⟨2, 1⟩)) = some (⟨1, 0, 0, 0, -1, 6⟩, ⟨2, 5⟩) := by
   decide +kernel
